@@ -120,6 +120,9 @@ def gen_free_rows(rk, tier):
                     continue
                 for extra in (False, True):
                     yield {"free": {"k": "row", "rk": rk, "cells": [list(x) for x in combo], "extra": extra}, "cells": [], "dl": None, "ref": ref}
+                    # one of the cells holds nothing but a blank (dict input keeps such a cell): still a text in that language, or none anywhere
+                    for bi in (range(len(combo)) if not ref else ()):
+                        yield {"free": {"k": "row", "rk": rk, "cells": [list(x) for x in combo], "extra": extra, "blank": bi}, "cells": [], "dl": None, "ref": ref}
 
 
 def gen_free_lists(order):
@@ -139,6 +142,8 @@ def build_free(case):
             v = f"k.{c}.{l or '0'}" + (".png" if c == "image" else ".mp3" if c == "audio" else "")
             if case["ref"] and c in ("label", "hint", "constraint_message", "required_message"):
                 v += " ${inner}"
+            if f.get("blank") is not None and [c, l] == list(f["cells"][f["blank"]]):
+                v = " "
             row[free_header(c, l)] = v
         if any(c == "constraint_message" for c, _ in f["cells"]):
             row["constraint"] = ". != 'zz'"
